@@ -41,7 +41,7 @@ def random_rule_params(rng, maxn=14):
     freq = rng.choice([R.DAILY, R.HOURLY, R.WEEKLY, R.MINUTELY, R.SECONDLY, R.DAILY, R.HOURLY])
     p = dict(freq=freq, dtstart=to_dt(rng.choice([0, 0, 3600, 86400, 90000, 5, 172800])),
              interval=rng.choice([1, 1, 2, 3, 7]), count=rng.choice([0, 1, 2, 3, 5, 9, 10, 11, 12, maxn]))
-    if rng.random() < 0.25:
+    if rng.random() < 0.25 and freq in (R.DAILY, R.WEEKLY, R.HOURLY):      # sub-hourly + BYDAY steps through every second of the skipped days
         p["byweekday"] = tuple(sorted(rng.sample(range(7), rng.randint(1, 3))))
     return p
 
